@@ -16,6 +16,8 @@ pub enum MutKind {
     Move(String, String),
     /// unlink or rmdir
     Remove(String),
+    /// the attacker creates a directory inside the tree (a name the walked path expects to be missing)
+    Mkdir(String),
     /// over-mount an entry of the jail's /proc ({PID} = the traced worker); index into mountmc kinds
     Mount(crate::mountmc::MKind, String),
     Umount(String),
@@ -31,6 +33,7 @@ pub struct Mutation {
 impl Mutation {
     pub fn xchg(a: &str, b: &str) -> Mutation { Mutation { name: format!("xchg({},{})", short(a), short(b)), kind: MutKind::Xchg(a.into(), b.into()) } }
     pub fn mv(a: &str, b: &str) -> Mutation { Mutation { name: format!("move({}->{})", short(a), short(b)), kind: MutKind::Move(a.into(), b.into()) } }
+    pub fn mkdir(a: &str) -> Mutation { Mutation { name: format!("mkdir({})", short(a)), kind: MutKind::Mkdir(a.into()) } }
     pub fn rm(a: &str) -> Mutation { Mutation { name: format!("remove({})", short(a)), kind: MutKind::Remove(a.into()) } }
     pub fn mount(kind: crate::mountmc::MKind, rel: &str) -> Mutation { Mutation { name: format!("mount({:?} over {})", kind, rel), kind: MutKind::Mount(kind, rel.into()) } }
     pub fn umount(rel: &str) -> Mutation { Mutation { name: format!("umount({})", rel), kind: MutKind::Umount(rel.into()) } }
@@ -52,6 +55,7 @@ impl Mutation {
     pub fn enabled(&self) -> bool {
         match &self.kind {
             MutKind::Mount(..) | MutKind::Umount(..) => false,
+            MutKind::Mkdir(a) => lstat(a).is_none() && std::path::Path::new(a).parent().map(|p| p.is_dir()).unwrap_or(false),
             MutKind::Xchg(a, b) => lstat(a).is_some() && lstat(b).is_some(),
             MutKind::Move(a, b) => lstat(a).is_some() && lstat(b).is_none(),
             MutKind::Remove(a) => match lstat(a) { Some(st) => !st.is_dir() || std::fs::read_dir(a).map(|mut d| d.next().is_none()).unwrap_or(false), None => false },
@@ -60,6 +64,7 @@ impl Mutation {
     pub fn apply(&self) -> MResult<()> {
         let r = match &self.kind {
             MutKind::Mount(..) | MutKind::Umount(..) => return mach("mount mutations need apply_in"),
+            MutKind::Mkdir(a) => { let c = cs(a); if unsafe { libc::mkdir(c.as_ptr(), 0o755) } == 0 { Ok(()) } else { Err(errno()) } }
             MutKind::Xchg(a, b) => renameat2(a, b, libc::RENAME_EXCHANGE),
             MutKind::Move(a, b) => renameat2(a, b, libc::RENAME_NOREPLACE),
             MutKind::Remove(a) => {
